@@ -42,11 +42,13 @@ pub const ANSI_WF: &[&str] = &[
     "\u{1b}]8;;http://example.com\u{1b}\\", "\u{1b}]8;;\u{1b}\\", "\u{1b}]8;;x\u{7}", "\u{1b}]0;title\u{7}", "\u{1b}]\u{7}", "\u{1b}]a b\u{1b}\\",
     "\u{1b}]8;;http://foo-bar.example/a-b\u{1b}\\", "\u{1b}]8;;x-y\u{7}",
     "\u{1b}[3 m", "\u{1b}]\u{4f60}\u{7}", "\u{1b}[\u{4f60}m",
+    // colon sub-parameters (ISO 8613-6 colours, curly underline) and private-use parameter bytes
+    "\u{1b}[38:5:208m", "\u{1b}[4:3m", "\u{1b}[?25l", "\u{1b}[>0c", "\u{1b}[1$r",
 ];
 /// SGR / OSC-8 sequences without spaces or hyphens inside (for C13, where sequences are "attached to words")
 pub const ANSI_COLOUR: &[&str] = &[
     "\u{1b}[31m", "\u{1b}[0m", "\u{1b}[1;32m", "\u{1b}[m", "\u{1b}[38;5;196m", "\u{1b}]8;;http://example.com\u{1b}\\", "\u{1b}]8;;\u{1b}\\",
-    "\u{1b}]8;;x\u{7}",
+    "\u{1b}]8;;x\u{7}", "\u{1b}[38:5:208m", "\u{1b}[4:3m", "\u{1b}[38:2::10:20:30m",
 ];
 pub const ANSI_MALFORMED: &[&str] = &[
     "\u{1b}", "\u{1b}[", "\u{1b}[3", "\u{1b}]8;;x", "\u{1b}X", "\u{1b}\u{4f60}", "\u{1b}\u{1b}", "\u{1b} ", "\u{1b}]", "\u{1b}[\u{1b}[m", "\u{1b}]\u{1b}", "\u{1b}\n",
@@ -93,7 +95,7 @@ pub fn rand_seq(r: &mut Rng) -> String {
         format!("\u{1b}]{}{}", payload, if r.chance(1, 2) { "\u{7}" } else { "\u{1b}\\" })
     } else {
         // CSI: parameter bytes must not be final bytes (0x40..0x7e)
-        let payload: String = (0..r.below(5)).map(|_| *r.pick(&['0', '1', ';', '3', '?', ' ', '\u{e9}', '\u{4e07}', '\u{107}'])).collect();
+        let payload: String = (0..r.below(5)).map(|_| *r.pick(&['0', '1', ';', '3', '?', ' ', '\u{e9}', '\u{4e07}', '\u{107}', ':', ':', '<', '=', '>', '!', '/', '$', '"'])).collect();
         format!("\u{1b}[{}{}", payload, *r.pick(&['m', 'K', '~', '@', 'H']))
     }
 }
